@@ -101,6 +101,10 @@ fn main() {
             }
             0
         }
+        | Some("prelude") => {
+            print!("{}", prelude::MiniPrelude::core().text());
+            0
+        }
         | Some("list") => {
             for def in props::all() {
                 println!("{} {}", def.id, def.title);
